@@ -33,7 +33,7 @@ BUDGET = {
 CONSTRUCTORS = ["topology", "topology", "topology-dict", "vertices", "ds-ugrid", "ds-mpas", "ds-esmf", "ds-scrip", "ds-exodus", "ds-icon"]
 LAZY = ["edge_node_connectivity", "face_edge_connectivity", "node_face_connectivity", "face_lon", "node_x", "face_x", "face_areas", "edge_lon"]
 MUTATORS = ["centers-avg", "centers-welzl", "normalize", "chunk", "set-node_lon", "set-face_areas", "lazy"]
-EDITS = ["xr-inplace", "xr-attrs", "xr-delete", "gdf-column", "gdf-drop", "uxda-gdf"]
+EDITS = ["xr-inplace", "xr-attrs", "xr-delete", "gdf-column", "gdf-drop", "uxda-gdf", "uxda-gdf-nocache"]
 
 
 @st.composite
@@ -55,6 +55,7 @@ def _case(draw, tier):
         "lon360": draw(st.booleans()),
         "latlon": draw(st.booleans()),
         "radius": draw(st.sampled_from([1.0, 6371229.0])),
+        "with_xyz": draw(st.sampled_from([False, False, True])),  # topology constructors: caller also supplies node_x/y/z (scaled by radius)
     }
     steps = []
     for _ in range(draw(st.integers(1, 6))):
@@ -187,6 +188,10 @@ def _construct(ux, case, ctx):
         if d["container"] == "list":
             conn, lon, lat = conn.tolist(), lon.tolist(), lat.tolist()
         inputs = {"node_lon": lon, "node_lat": lat, "face_node_connectivity": conn}
+        if d.get("with_xyz"):
+            xyz = meshgen.mesh_xyz(mesh) * d["radius"]
+            for ax, nm in enumerate(("node_x", "node_y", "node_z")):
+                inputs[nm] = np.ascontiguousarray(xyz[:, ax]) if d["container"] != "list" else xyz[:, ax].tolist()
         kw = dict(inputs, fill_value=fill, start_index=d["start_index"])
         if d["container"] == "list":
             kw["face_node_connectivity"] = np.asarray(conn, dtype=dt)  # connectivity must be an array; coordinates may be lists
@@ -350,9 +355,14 @@ def run_case(case, ctx):
                 site = f"edit:{what}"
                 fresh_cols = None
                 try:
-                    if what == "uxda-gdf":
+                    if what.startswith("uxda-gdf"):
                         da = ux.UxDataArray(np.arange(tgt.n_face, dtype=float), dims=["n_face"], uxgrid=tgt, name="v")
-                        gdf = da.to_geodataframe()
+                        if what == "uxda-gdf-nocache":
+                            if arg != "scrip":
+                                tgt.to_geodataframe()  # the grid already holds a frame of its own
+                            gdf = da.to_geodataframe(cache=False)
+                        else:
+                            gdf = da.to_geodataframe()
                         n_expected = len(gdf)
                     else:
                         gdf = tgt.to_geodataframe()
